@@ -9,7 +9,7 @@ import (
 
 func init() {
 	register(&property{id: "C05", run: runC05, meta: propMeta{
-		level: "proof",
+		level: "other",
 		explanation: "advanceDFA is flattened from the syntax tree into a complete state x rune-interval transition table over all of Unicode and evalDFA into state -> (terminal, lexeme operation, consume call); " +
 			"the resulting Moore machine is compared by product exploration with a reference machine the checker builds from the documented token table (docs/5-definitions.md) plus the property's whitespace/comment clauses; " +
 			"lexeme, consume-once, position-source and scan-loop obligations are decided on the AST/SSA. Decides every (state, code point) pair and every accepting state; does not execute the scanner.",
